@@ -101,6 +101,7 @@ func loadProgram(prop string) (*symex.Program, error) {
 type tierCfg struct {
 	name       string
 	maxPaths   int
+	maxSteps   int
 	unwind     int
 	solverMs   int
 	perHarness time.Duration
@@ -110,9 +111,9 @@ type tierCfg struct {
 
 func tierOf(name string) tierCfg {
 	if name == "thorough" {
-		return tierCfg{name: "thorough", maxPaths: 250000, unwind: 16, solverMs: 120000, perHarness: 25 * time.Minute, samples: 12, solvers: []string{"z3-new+z3", "cvc5"}}
+		return tierCfg{name: "thorough", maxPaths: 250000, maxSteps: 4000000, unwind: 16, solverMs: 120000, perHarness: 25 * time.Minute, samples: 12, solvers: []string{"z3-new+z3", "cvc5"}}
 	}
-	return tierCfg{name: "quick", maxPaths: 40000, unwind: 12, solverMs: 8000, perHarness: 150 * time.Second, samples: 3, solvers: []string{"z3-new+z3"}}
+	return tierCfg{name: "quick", maxPaths: 40000, maxSteps: 1000000, unwind: 12, solverMs: 8000, perHarness: 150 * time.Second, samples: 3, solvers: []string{"z3-new+z3"}}
 }
 
 type harnessResult struct {
@@ -142,7 +143,7 @@ func runHarness(p *symex.Program, h *ssa.Function, tc tierCfg, solverKind string
 		fmt.Println("solver:", err)
 		os.Exit(2)
 	}
-	lim := symex.Limits{MaxPaths: tc.maxPaths, Unwind: tc.unwind, MaxDepth: 250, MaxSteps: 4000000, SolverMs: tc.solverMs,
+	lim := symex.Limits{MaxPaths: tc.maxPaths, Unwind: tc.unwind, MaxDepth: 250, MaxSteps: tc.maxSteps, SolverMs: tc.solverMs,
 		Deadline: time.Now().Add(tc.perHarness)}
 	ex := symex.NewExec(p, h, s, lim)
 	ex.Tier = tc.name
@@ -595,6 +596,9 @@ func (r *replayer) replay(h *ssa.Function, c *symex.Candidate) (string, string) 
 		path = filepath.Join(r.work, fmt.Sprintf("sample-%d.json", n))
 	} else {
 		rel = filepath.Join("evidence", "witness", fmt.Sprintf("%s-%s-%d.json", r.prop, h.Name(), n))
+		if c.Kind == "hang" {
+			rel = filepath.Join("evidence", "witness", fmt.Sprintf("%s-%s-hang-%d.json", r.prop, h.Name(), n))
+		}
 		path = filepath.Join(verifDir, rel)
 	}
 	os.WriteFile(path, data, 0644)
@@ -602,7 +606,11 @@ func (r *replayer) replay(h *ssa.Function, c *symex.Candidate) (string, string) 
 }
 
 func runWitness(bin, witness, harness string) string {
-	cmd := exec.Command("timeout", "-k", "2", "30", bin, "-test.run", "^TestVerifReplay$", "-test.v")
+	limit := "30"
+	if strings.Contains(witness, "-hang-") {
+		limit = "12" // a candidate non-termination: the native run is given 12 s (the engine spent its whole step budget)
+	}
+	cmd := exec.Command("timeout", "-k", "2", limit, bin, "-test.run", "^TestVerifReplay$", "-test.v")
 	cmd.Dir = filepath.Dir(bin)
 	cmd.Env = append(os.Environ(), "VERIF_WITNESS="+witness, "VERIF_HARNESS="+harness)
 	out, err := cmd.CombinedOutput()
